@@ -9,6 +9,9 @@ import (
 	"strings"
 
 	"github.com/bitcoin-sv/block-headers-service/config"
+	"github.com/bitcoin-sv/block-headers-service/database"
+	"github.com/bitcoin-sv/block-headers-service/verifharness/rig"
+	"github.com/rs/zerolog"
 )
 
 // dbCase is one generated database section with the verdict the statement demands.
@@ -141,7 +144,7 @@ func (h *harness) dbCases(fs files) []dbCase {
 			add(fmt.Sprintf("bad/engine/%d/rest-valid-for-%s", i, other), "engine-unsupported", "refuse", c)
 		}
 	}
-	for _, e := range []string{"", "SQLITE", "Postgres", " sqlite", "sqlite3", "postgresql"} {
+	for _, e := range []string{"", "SQLITE", "SQLite", "Sqlite", "Postgres", "POSTGRES", " sqlite", "sqlite ", "sqlite3", "postgresql"} {
 		c := validSQLite()
 		c.Engine = config.DbEngine(e)
 		add("observe/engine/"+strings.TrimSpace(strings.ToLower(e))+fmt.Sprint(len(e)), "engine-variant", "observe", c)
@@ -270,6 +273,24 @@ func (h *harness) judge(caseID, class, verdict, route string, err error, c confi
 	default:
 		if err == nil {
 			r.Count("validate_observed_only_accepted", 1)
+			// spellings of an engine name the statement does not rule on: whatever validation decides, it must agree
+			// with the database layer - a section that passes validation names an engine the service can open
+			if class == "engine-variant" {
+				app := rig.NewConfig(filepath.Join(h.dir, "engine-variant.db"))
+				app.Db.Engine = c.Engine
+				nop := zerolog.Nop()
+				db, ierr := database.Init(app, &nop)
+				if db != nil {
+					_ = db.Close()
+				}
+				_ = os.Remove(filepath.Join(h.dir, "engine-variant.db"))
+				if ierr != nil && strings.Contains(ierr.Error(), "unsupported database engine") {
+					d["database_layer"] = ierr.Error()
+					r.Violate("validate|accepted|engine-the-database-layer-does-not-support", fmt.Sprintf("db.engine %q passed validation but the database layer refuses it: %v", c.Engine, ierr), caseID, d)
+					return
+				}
+				r.Count("accepted_engine_spellings_opened_by_the_database_layer", 1)
+			}
 		} else {
 			r.Count("validate_observed_only_refused", 1)
 		}
